@@ -1247,6 +1247,9 @@ fn read_inner(decoder: &mut BinDecoder<'_>, name: &mut Name) -> Result<(), Decod
     // label: 03FF & slice = length; slice.next(length) = label
     // root: 0000
     loop {
+        #[cfg(feature = "verif-hooks")]
+        crate::verif_hooks::count_name_decode_step();
+
         // this protects against overlapping labels when chasing pointers
         if let Some(max_idx) = ptr_max_idx {
             if decoder.index() >= max_idx {
